@@ -232,3 +232,40 @@ Proof.
     destruct (IH (Forall_inv_tail HQ) B) as [C D].
     split; [constructor; [exact (Forall_inv A)|exact C]|exact D].
 Qed.
+
+(* ------------------------------------------------------------------ the swarm family over histories: refuted (known finding
+   history:PSO-family:record-fit-not-f(local)).  `run()` re-creates local_position = zeros while the personal-best fitnesses
+   persist in the agents; until a particle improves on its inherited fitness its record pairs that fitness with the all-zero
+   local position.  Full statement refuted:
+     forall two PSO tasks on one space, every record y of the second task satisfies truthful f true y.
+   Witness: two particles at 3 and 8 in [0,10], f = the checksum fchk (the coordinate itself on [0,10]); task 1 moves them to 10 and 0 (fitnesses
+   3 and 0 stay the personal bests); task 2 moves them to 9 and 8 -- nothing improves -- and its record holds the fitnesses
+   [3; 0] next to the local positions [0; 0]: 3 <> f(0). *)
+Definition pso_t1 : task :=
+  {| tp := prog_PSO; tf := fchk; thk := hk; tn := 1; tlc := [[[Some 0%Z]]; [[Some 0%Z]]];
+     tor := [ACont [[Some 12%Z]]; ACont [[Some (-5)%Z]]] |}.
+Definition pso_t2 : task :=
+  {| tp := prog_PSO; tf := fchk; thk := hk; tn := 1; tlc := [[[Some 0%Z]]; [[Some 0%Z]]];
+     tor := [ACont [[Some 9%Z]]; ACont [[Some 8%Z]]] |}.
+
+Theorem C20_swarm_history_refuted :
+  exists rs x' xs evs xe y,
+    init_ok [0%Z] [10%Z] fchk true st0 /\
+    thist [0%Z] [10%Z] okc [pso_t1; pso_t2] st0 rs x' /\
+    nth_error rs 1 = Some (xs, evs, xe) /\ In (EvDump y) evs /\ ~ truthful fchk true y.
+Proof.
+  destruct (run [0%Z] [10%Z] fchk hk 1 okc prog_PSO (tor pso_t1) (with_loc st0 (tlc pso_t1))) as [[[x1 e1] o1]|] eqn:E1;
+    [|vm_compute in E1; discriminate].
+  destruct (run [0%Z] [10%Z] fchk hk 1 okc prog_PSO (tor pso_t2) (with_loc x1 (tlc pso_t2))) as [[[x2 e2] o2]|] eqn:E2;
+    [|vm_compute in E1; injection E1 as <- _ _; vm_compute in E2; discriminate].
+  assert (D : exists y, In (EvDump y) e2 /\ map afit (pop y) = [3%Z; 0%Z] /\ loc y = [[[Some 0%Z]]; [[Some 0%Z]]]).
+  { vm_compute in E1. injection E1 as <- _ _. vm_compute in E2. injection E2 as _ <- _.
+    eexists. split; [simpl; repeat (first [left; reflexivity|right])|split; reflexivity]. }
+  destruct D as (y & Hy & Hf & Hl).
+  exists [(with_loc st0 (tlc pso_t1), e1, x1); (with_loc x1 (tlc pso_t2), e2, x2)], x2, (with_loc x1 (tlc pso_t2)), e2, x2, y.
+  split; [|split; [|split; [reflexivity|split; [exact Hy|]]]].
+  - apply (st0_init true).
+  - eapply thist_cons; [exact E1|]. eapply thist_cons; [exact E2|apply thist_nil].
+  - unfold truthful. intros HT. destruct (pop y) as [|a0 [|a1 [|a2 l]]]; try discriminate.
+    injection Hf as Ha0 _. rewrite Hl in HT. inversion HT as [|? ? ? ? H0 _]; subst. rewrite Ha0 in H0. discriminate.
+Qed.
